@@ -93,6 +93,12 @@ func extractSinglePart(re *syntax.Regexp) *charClassPart {
 	var charClass *syntax.Regexp
 	var minMatch, maxMatch int
 
+	// Non-greedy quantifiers (+?, *?, ??, {n,m}?) prefer the shortest repetition;
+	// the greedy matching below cannot express that.
+	if re.Op != syntax.OpCharClass && re.Flags&syntax.NonGreedy != 0 {
+		return nil
+	}
+
 	switch re.Op {
 	case syntax.OpPlus:
 		// cc+ → minMatch=1, maxMatch=unlimited (0 means unlimited)
@@ -284,11 +290,19 @@ func isValidCompositePart(re *syntax.Regexp) bool {
 		if len(re.Sub) != 1 {
 			return false
 		}
+		// Non-greedy quantifiers are not supported (matching is always greedy)
+		if re.Flags&syntax.NonGreedy != 0 {
+			return false
+		}
 		return re.Sub[0].Op == syntax.OpCharClass
 
 	case syntax.OpRepeat:
 		// Must have exactly one sub which is a char class
 		if len(re.Sub) != 1 {
+			return false
+		}
+		// Non-greedy quantifiers are not supported (matching is always greedy)
+		if re.Flags&syntax.NonGreedy != 0 {
 			return false
 		}
 		return re.Sub[0].Op == syntax.OpCharClass
